@@ -12,12 +12,16 @@ if [ ! -d $S/repo ]; then
   git -C /repo worktree add -q --detach $S/repo HEAD || exit 2
   cp /repo/Cargo.lock $S/repo/Cargo.lock
 fi
-git -C $S/repo checkout -q --detach "$(git -C /repo rev-parse HEAD)" && git -C $S/repo checkout -q -- . 
+git -C $S/repo reset -q --hard && git -C $S/repo checkout -q --detach "$(git -C /repo rev-parse HEAD)" && git -C $S/repo checkout -q -- . 
 mkdir -p $S/harness
 rsync -a --delete --exclude 'target*' /verif/harness/ $S/harness/
 sed -i "s#/repo/#$S/repo/#g" $S/harness/Cargo.toml
 cp /verif/KNOWN_FINDINGS.txt $S/
-if ! git -C $S/repo apply "$patch"; then echo "SELFTEST patch does not apply: $patch"; exit 2; fi
+# seeds were written against earlier commits of /repo: fall back to a 3-way merge when the context has moved
+if ! git -C $S/repo apply "$patch" 2>/dev/null; then
+  if ! git -C $S/repo apply --3way "$patch" >/dev/null 2>&1; then echo "SELFTEST patch does not apply: $patch"; exit 2; fi
+  git -C $S/repo reset -q
+fi
 ( cd $S/harness && cargo build --release --offline -q 2>&1 | grep -E "^error" -A8; cargo build --profile shipped --offline -q 2>&1 | grep -E "^error" -A8 )
 rc=0
 for p in "$@"; do
@@ -27,7 +31,7 @@ for p in "$@"; do
   if [ $code -eq 1 ]; then echo "SELFTEST $(basename "$patch") $p: CAUGHT  sigs: $sigs"
   else echo "SELFTEST $(basename "$patch") $p: MISSED (exit $code) $(echo "$out" | tail -1)"; rc=1; fi
 done
-git -C $S/repo checkout -q -- .
+git -C $S/repo reset -q --hard
 if [ "${KEEP:-0}" != "1" ]; then
   git -C /repo worktree remove --force $S/repo; rm -rf $S
 fi
